@@ -118,6 +118,19 @@ def build_cases(ctx):
     for op in UNOPS:
         for a in GRID:
             cases.append(("un", op + spell(a)))
+    # array operands: an object operand takes part through its primitive value (an array's is its join), so the same operators
+    # applied to them fall back on the primitive semantics above
+    arrs = ["[]", "[1]", "[2, 1]", "[2, 1, 3]", "[10]", "[9]", "['b']", "[[1], 2]", "[null]", "[undefined]", "['']", "[0]", "['1', 2]", "[-0]", "[1.5]", "[NaN]"]
+    prims = ["1", "2", "'1'", "'2,1'", "''", "'b'", "0", "null", "undefined", "true", "NaN", "'10'", "9"]
+    for op in ["<", "<=", ">", ">=", "==", "!=", "===", "!==", "+", "-", "*", "/", "%", "&", "|", "<<"]:
+        for a in arrs:
+            for b in arrs + prims:
+                cases.append(("bin-array", "(" + a + ") " + op + " (" + b + ")"))
+                if b in prims:
+                    cases.append(("bin-array", "(" + b + ") " + op + " (" + a + ")"))
+    for op in UNOPS:
+        for a in arrs:
+            cases.append(("un-array", op + "(" + a + ")"))
     # conditional / short-circuit with every grid value as condition
     for a in GRID:
         cases.append(("cond", spell(a) + " ? 1 : 2"))
